@@ -135,6 +135,30 @@ def innermost(tb, only=None):
     return found
 
 
+class app_stack(object):
+    """with app_stack(): ...   runs the block with the interpreter stack an
+    application has.  Hypothesis raises the recursion limit while it runs a
+    test (by about 2000 frames), so code that recurses once per input unit
+    gets room here that no application gives it.  An application runs with
+    the default limit of 1000 frames and calls a decoder from some depth
+    (link loop, service thread: 20 frames or more); the block therefore gets
+    `free` (default 950) frames below the current one."""
+
+    def __init__(self, free=950):
+        self.free = free
+
+    def __enter__(self):
+        depth, f = 0, sys._getframe()
+        while f is not None:
+            depth, f = depth + 1, f.f_back
+        self.saved = sys.getrecursionlimit()
+        sys.setrecursionlimit(depth + self.free)
+
+    def __exit__(self, *exc):
+        sys.setrecursionlimit(self.saved)
+        return False
+
+
 def unexpected(exc, oracle="unexpected-exception", detail=None):
     """turn an exception raised by nfcpy into a Violation (or a HarnessError
     when its innermost frame is harness code)"""
